@@ -990,6 +990,8 @@ func Run(o *hx.Opts, w *lineio.Writer) error {
 			reps := 10
 			if in.Kind != "upd" {
 				reps = 1
+			} else if in.ReqTimeoutMs > 0 {
+				reps = 3 // a slow case takes seconds, and it is its queueing, not a rare schedule, that matters
 			}
 			for k := 0; k < reps; k++ {
 				cases = append(cases, in)
